@@ -40,6 +40,7 @@ EXPLANATION = (
     "__exit__ when an exception is in flight, (R5) the validation must-calls of chunk creation, (R6) that patch "
     "centres are paired with patches by id or behind a raising guard, (R7) sibling agreement of the creation "
     "pipelines. Each clause is a necessary condition of the property; no time bound is decided."
+    ' R3 additionally requires the overwrite flag to be true on every path to the rmtree; R8: the number of generated patch ids is range-checked where the patch mode is decided; R9: the id list is published only after a raising test for empty patches.'
 )
 ASSUMPTIONS = [
     "multiprocessing.Process.join blocks until the child exits; a child blocked in Queue.get never exits by itself",
